@@ -38,6 +38,14 @@ def compress_cases(ctx, n, nsmall, nbig=0, maxsize=None):
         level = rnd.choice([1, 1, 1, 2])
         cs.append(dict(fam='chunk-straddle', data=gen.chunk_straddle(rnd, level), level=level, ultra=rnd.random() < 0.8,
                        w=rnd.choice([1, 2, 4])))
+    # plaintexts with a designed BWT: no zero MTF ranks and Fibonacci-like rank skew -> RUNA/RUNB unused and
+    # 18-20 bit codes for them; 8 slightly shortened variants each, so that every byte-alignment padding occurs
+    params = [(900000, 0.55, 40), (500000, 0.6, 30), (900000, 0.6, 40), (900000, 0.618, 25), (700000, 0.58, 35), (900000, 0.618, 60)]
+    for i in range(3 if ctx.quick() else 40):
+        nn, ratio, K = params[i % len(params)]
+        if i >= len(params):
+            nn, ratio, K = rnd.choice([500000, 700000, 900000]), rnd.uniform(0.5, 0.66), rnd.choice([25, 30, 40, 60])
+        cs.append(dict(fam='bwt-designed', gen=('bwt', nn, ratio, K, rnd.randrange(1 << 30)), data=None, level=9, ultra=False, w=2))
     for i in range(nbig):
         # incompressible level-9 blocks: ~18001 coding groups each
         d = rnd.randbytes(900000 + rnd.choice([0, 1, 50, 100000]))
@@ -56,8 +64,42 @@ def packmodel(data, cap, chunk):
     return [tuple(int(x) for x in l.split()) for l in p.stdout.decode().split('\n') if l]
 
 
+def expand_generated(cs):
+    """Cases with a deferred generator (expensive inputs are built inside the worker pool)."""
+    import random
+    out = []
+    for c in cs:
+        if c.get('gen'):
+            _, nn, ratio, K, sd = c['gen']
+            for k in range(8):
+                c2 = dict(c); c2['trim'] = k
+                out.append(c2)
+        else:
+            out.append(c)
+    return out
+
+
+_gen_cache = {}
+_gen_lock = __import__('threading').Lock()
+
+
+def materialise(c):
+    if c.get('data') is None and c.get('gen'):
+        import random
+        _, nn, ratio, K, sd = c['gen']
+        with _gen_lock:
+            d = _gen_cache.get(c['gen'])
+        if d is None:
+            d = gen.bwt_designed(random.Random(sd), nn, ratio, K)
+            with _gen_lock:
+                _gen_cache[c['gen']] = d
+        c['data'] = d[:len(d) - c.get('trim', 0)]
+    return c
+
+
 def compress(ctx, lb, c, tables=False):
     """Run lbzip2 on case c; on success return (Res, refbz info, desc)."""
+    materialise(c)
     data = c['data']
     desc = dict(family=c['fam'], size=len(data), level=c['level'], ultra=c['ultra'], workers=c['w'], env=c['env'])
     argv = [lb, '-%d' % c['level'], '-n', str(c['w'])] + (['-u'] if c['ultra'] else [])
